@@ -70,7 +70,8 @@ ROOT_BITS = '1100101'
 
 
 def dict_root():
-    return RH.build({5: RBITS.uint(500, 16), 7: RBITS.uint(700, 16), 200: RBITS.uint(9, 16)}, 8)
+    # all keys begin with the bit 1: the ROOT edge has a non-empty label (a parser that accumulates prefixes between calls shows on it)
+    return RH.build({133: RBITS.uint(500, 16), 135: RBITS.uint(700, 16), 200: RBITS.uint(9, 16)}, 8)
 
 
 def msg_root():
@@ -787,7 +788,7 @@ def shard_ctor_schedules(rec, kind, length, part, parts):
 # every state reachable in <= 2 steps that holds a new set of cells) ALL sequences of <= L observations over (object, observer)
 # run on a fresh replay; every single result must equal the result of the same observation made alone on a fresh replay
 # (which the battery compares with the reference model), and the pool must stay as it was.
-OBS_CELL = ['boc', 'order', 'boc_full', 'order_arg', 'hash']
+OBS_CELL = ['boc', 'order', 'boc_full', 'order_arg', 'hash', 'order_into']
 OBS_CELL_LEAN = ['boc', 'order']
 
 
@@ -808,6 +809,16 @@ def _obs(pool, bocs, ev):
         return tuple(c.hash for c in o.order({}))
     if name == 'hash':
         return (o.hash, hash(o), repr(o), o.get_depth(), o.calculate_representation_hash())
+    if name == 'order_into':
+        # the dictionary order() RETURNED is the caller's: it is handed on as the `result` argument of another cell's order() (which fills
+        # it further) and emptied afterwards - none of which is the first cell's business
+        from pytoniq_core.boc import Cell
+        d = o.order()
+        other = next((p for j, p in enumerate(pool) if j != i and isinstance(p, Cell)), o)
+        other.order(d)
+        res = tuple(c.hash for c in d)
+        d.clear()
+        return res
     raise AssertionError(name)
 
 
